@@ -51,7 +51,9 @@ def run_job(texts, ops, hashseed="0", timeout=180):
         raise core.HarnessError(f"C17 worker timed out after {timeout}s") from e
     if p.returncode != 0:
         return {"crash": p.stderr[-1500:]}
-    return json.loads(p.stdout)
+    # (integers beyond the interpreter's str->int limit may legitimately come back from a worker whose library code
+    # lifted that limit: keep them as text instead of failing in the harness)
+    return json.loads(p.stdout, parse_int=lambda d: int(d) if len(d) <= 4000 else f"int:{len(d)}digits:{d[:16]}..{d[-16:]}")
 
 
 def _flat(results):
@@ -443,6 +445,22 @@ def fixed_cases(ctx: Ctx):
                                         ["threads", [[1, None], [2, None], [0, None]], "coop",
                                          [[0, run], [1, run + 3], [2, run]]]]}
     yield {"texts": texts2, "ops": [["threads", [[0, None], [1, None], [2, None], [1, None]], "os", []]]}
+    # numbers beyond the interpreter's limit for str -> int conversion (4300 digits), one chart per place where the
+    # format carries a number.  Each of them is refused when parsed alone; what one of them makes a parser do
+    # (raise a process-wide limit, say) must not decide the fate of the next
+    big = "7" * 4999
+    base_txt = S.render(a)
+    huge = [base_txt.replace("  200 = N 0 10\n", f"  200 = N 0 {big}\n"),
+            base_txt.replace("  Resolution = 192\n", f"  Resolution = 192\n  Offset = {big}\n"),
+            base_txt.replace("  0 = TS 4\n", f"  0 = TS 4\n  5 = TS {big}\n"),
+            base_txt.replace("  200 = N 0 10\n", f"  200 = N 0 10\n  200 = S 2 {big}\n"),
+            base_txt.replace("  0 = B 120000\n", f"  0 = B 120000\n  9 = A {big}\n"),
+            base_txt.replace("  200 = N 0 10\n", f"  200 = N 0 10\n  200 = N 6 {big}\n"),
+            base_txt]
+    assert all(t != base_txt for t in huge[:-1]), "fixed C17 texts: a replacement did not apply"
+    nh = len(huge)
+    yield {"texts": huge, "ops": [["parse", i, None] for i in range(nh)] + [["parse", i, None] for i in range(nh)]}
+    yield {"texts": huge, "ops": [["parse", i, None] for i in reversed(range(nh))] + [["parse", 1, None], ["parse", 2, None]]}
     # numeric twins: charts that are the same but for every tick >= 1 being moved up by an amount under which
     # DIFFERENT integers collide in some machine representation: 2^61 - 1 (CPython's hash modulus: hash(n) ==
     # hash(n + 2^61 - 1)), 2^32 / 2^64 (truncation to a machine word), 2^53 (float(n) == float(n + 1)).  Under a
